@@ -134,6 +134,53 @@ Proof.
       apply date_view_of_repr. exact Hr.
 Qed.
 
+(* ... and when it is one day outside: the two sentinel dates of [shift_date_overflowing]
+   (NaiveDate::BEFORE_MIN / AFTER_MAX), whose calendar reading is computed on the closed words *)
+Lemma date_view_BEFORE_MIN : date_view Date.D_BEFORE_MIN (DN_MIN - 1).
+Proof.
+  constructor.
+  - vm_compute. reflexivity.
+  - split; vm_compute; reflexivity.
+  - eexists _, _, _. split; [vm_compute; reflexivity|]. split; [vm_compute; reflexivity|].
+    split; [vm_compute; reflexivity|]. lia.
+  - split; [vm_compute; reflexivity|]. vm_compute. split; discriminate.
+  - vm_compute. reflexivity.
+  - eexists. split; [vm_compute; reflexivity|]. split; [vm_compute; reflexivity|]. split; [vm_compute; reflexivity|].
+    split; [vm_compute; split; discriminate|vm_compute; reflexivity].
+  - vm_compute. reflexivity.
+Qed.
+Lemma date_view_AFTER_MAX : date_view Date.D_AFTER_MAX (DN_MAX + 1).
+Proof.
+  constructor.
+  - vm_compute. reflexivity.
+  - split; vm_compute; reflexivity.
+  - eexists _, _, _. split; [vm_compute; reflexivity|]. split; [vm_compute; reflexivity|].
+    split; [vm_compute; reflexivity|]. lia.
+  - split; [vm_compute; reflexivity|]. vm_compute. split; discriminate.
+  - vm_compute. reflexivity.
+  - eexists. split; [vm_compute; reflexivity|]. split; [vm_compute; reflexivity|]. split; [vm_compute; reflexivity|].
+    split; [vm_compute; split; discriminate|vm_compute; reflexivity].
+  - vm_compute. reflexivity.
+Qed.
+
+Lemma shift_date_view_wide y o q : repr y o (mkdate y o) -> -1 <= q <= 1 ->
+  exists d', DateTime.shift_date_overflowing (mkdate y o) q = Val d' /\ date_view d' (dn_of_yo y o + q).
+Proof.
+  intros Hr Hq. destruct (dn_in_range (dn_of_yo y o + q)) eqn:Hin; [apply shift_date_view; assumption|].
+  pose proof (repr_dn_in_range y o _ Hr) as Hd. unfold dn_in_range in Hin, Hd.
+  unfold DateTime.shift_date_overflowing.
+  destruct (q =? -1) eqn:E1.
+  - assert (q = -1) by lia. subst q. rewrite (pred_opt_spec y o _ Hr).
+    replace (dn_of_yo y o + -1) with (dn_of_yo y o - 1) in * by lia.
+    unfold dn_in_range. rewrite Hin. cbn [bind date_if].
+    eexists. split; [reflexivity|]. replace (dn_of_yo y o - 1) with (DN_MIN - 1) by lia. exact date_view_BEFORE_MIN.
+  - destruct (q =? 1) eqn:E2.
+    + assert (q = 1) by lia. subst q. rewrite (succ_opt_spec y o _ Hr).
+      unfold dn_in_range. rewrite Hin. cbn [bind date_if].
+      eexists. split; [reflexivity|]. replace (dn_of_yo y o + 1) with (DN_MAX + 1) by lia. exact date_view_AFTER_MAX.
+    + assert (q = 0) by lia. subst q. rewrite Z.add_0_r in Hin. lia.
+Qed.
+
 Theorem args_view_dtz y o s f off sv :
   sval_of 3 (VTup [VInt y; VInt o; VInt s; VInt f; VInt off]) = Some sv ->
   (forall n, sv_dn sv = Some n -> dn_in_range n = true) ->
@@ -291,4 +338,75 @@ Proof.
     destruct (args_view_utc y o s f sv Es) as (n & a & Hd & Ha & Hav).
     apply (run_fmt_of_view 4 _ fmt a sv); auto.
     unfold dec_value. cbn [Z.eqb Pos.eqb]. rewrite Hd. cbn [option_map]. rewrite Ha. reflexivity.
+Qed.
+
+(** * The same without the restriction on the local day: a DateTime<FixedOffset> whose local
+      calendar day is one of the two sentinel dates (one day before NaiveDate::MIN / after MAX) *)
+Theorem args_view_dtz_all y o s f off sv :
+  sval_of 3 (VTup [VInt y; VInt o; VInt s; VInt f; VInt off]) = Some sv ->
+  exists z a, DateTime.dec_dtz (VTup [VInt y; VInt o; VInt s; VInt f; VInt off]) = Some z /\
+              fa_of_dtz z = Val a /\ args_view a sv.
+Proof.
+  cbn [sval_of]. destruct (date_ok y o) eqn:E1; [|discriminate]. destruct (time_ok s f) eqn:E2; [|discriminate].
+  destruct (off_ok off) eqn:E3; [|discriminate]. cbn [andb]. intros H. injection H as <-.
+  destruct (dec_date_repr y o E1) as [Hd Hr]. destruct (time_view_of s f E2) as [Ht Hv].
+  unfold off_ok in E3. assert (Ho : -86400 < off < 86400) by lia.
+  assert (Hts : 0 <= s < 86400 /\ 0 <= f < 2000000000) by (unfold time_ok, G9 in E2; lia).
+  destruct (Proofs.Time.offset_shift_range s off (proj1 Hts) Ho) as (Hm & Hq & Hsum).
+  destruct (shift_date_view_wide y o ((s + off) / 86400) Hr Hq) as (d' & Hsd & Hdv).
+  destruct (fixed_offset_display_total off Ho) as (name & Hname).
+  eexists (DateTime.mk_dtz (DateTime.mk_ndt (mkdate y o) (Time.mk_time s f)) off), _.
+  split; [|split].
+  - unfold DateTime.dec_dtz, DateTime.dec_ndt. rewrite Hd, Ht.
+    unfold DateTime.east_opt, Gen.DateTimeConsts.FO_EAST_LO, Gen.DateTimeConsts.FO_EAST_HI.
+    replace ((-86400 <? off) && (off <? 86400)) with true by lia. reflexivity.
+  - unfold fa_of_dtz, DateTime.overflowing_naive_local, DateTime.ndt_overflowing_add_offset.
+    cbn [DateTime.dz_utc DateTime.dz_off DateTime.nd_time DateTime.nd_date].
+    rewrite (Proofs.Time.add_offset_spec (Time.mk_time s f) off) by (unfold Proofs.Time.tvalid; cbn; lia).
+    cbn [bind Time.tsecs Time.tfrac]. rewrite Hsd. cbn [bind]. rewrite Hname. cbn [bind].
+    cbn [DateTime.nd_date DateTime.nd_time]. reflexivity.
+  - constructor; cbn [fa_date fa_time fa_off sv_dn sv_sod sv_nano sv_leap sv_off sv_utc sv_unix].
+    + exact Hdv.
+    + unfold time_view in *. cbn [Time.tsecs Time.tfrac] in *. destruct Hv as (_ & _ & Hn & Hf). repeat split; auto; lia.
+    + repeat split; auto; lia.
+    + eexists _, _. split; [reflexivity|]. split; [reflexivity|]. unfold unix_secs. lia.
+Qed.
+
+(** C12 holds of the model on `sf.fmt` for EVERY decodable value of the five kinds and every
+    format string of the documented family (no restriction on the local day) *)
+Theorem holds_fmt_all : forall kind v fmt,
+  documented_family fmt ->
+  accepted (judge (bytes_of_string "sf.fmt") [VInt kind; v; VStr fmt]
+                  (run (bytes_of_string "sf.fmt") [VInt kind; v; VStr fmt])).
+Proof.
+  intros kind v fmt Hf.
+  destruct (sval_of kind v) as [sv|] eqn:Es.
+  2:{ apply C12_holds_fmt; [exact Hf|]. intros sv n E. rewrite Es in E. discriminate. }
+  destruct (Z.eq_dec kind 3) as [->|Hk].
+  2:{ apply C12_holds_fmt; [exact Hf|]. intros sv' n E Hn. rewrite Es in E. injection E as <-.
+      (* for the other kinds the date is a NaiveDate of the range *)
+      destruct (sval_of_kind _ _ _ Es) as [-> | [-> | [-> | [-> | ->]]]]; try congruence.
+      - destruct (sval_of_inv0 _ _ Es) as (y & o & ->). destruct (args_view_date y o sv Es) as (d & _ & Hav).
+        cbn [sval_of] in Es. destruct (date_ok y o) eqn:E; [|discriminate]. injection Es as <-. cbn [sv_dn] in Hn.
+        injection Hn as <-. destruct (dec_date_repr y o E) as [_ Hr]. exact (repr_dn_in_range _ _ _ Hr).
+      - destruct (sval_of_inv1 _ _ Es) as (s & f & ->). cbn [sval_of] in Es.
+        destruct (time_ok s f); [|discriminate]. injection Es as <-. discriminate Hn.
+      - destruct (sval_of_inv2 _ _ Es) as (y & o & s & f & ->). cbn [sval_of] in Es.
+        destruct (date_ok y o) eqn:E; [|discriminate]. destruct (time_ok s f); [|discriminate]. cbn [andb] in Es.
+        injection Es as <-. cbn [sv_dn] in Hn. injection Hn as <-.
+        destruct (dec_date_repr y o E) as [_ Hr]. exact (repr_dn_in_range _ _ _ Hr).
+      - destruct (sval_of_inv4 _ _ Es) as (y & o & s & f & ->). cbn [sval_of] in Es.
+        destruct (date_ok y o) eqn:E; [|discriminate]. destruct (time_ok s f); [|discriminate]. cbn [andb] in Es.
+        injection Es as <-. cbn [sv_dn] in Hn. injection Hn as <-.
+        destruct (dec_date_repr y o E) as [_ Hr]. exact (repr_dn_in_range _ _ _ Hr). }
+  change (judge (bytes_of_string "sf.fmt") [VInt 3; v; VStr fmt])
+    with (fun out => if utf8_ok fmt then judge_fmt false 3 v fmt out else JSkip).
+  change (run (bytes_of_string "sf.fmt") [VInt 3; v; VStr fmt])
+    with (if utf8_valid fmt then run_fmt false 3 v fmt else VBad).
+  cbv beta. rewrite (utf8_ok_valid fmt). destruct Hf as [Hv Hw]. rewrite Hv.
+  assert (Hfam : documented_family fmt) by (split; assumption).
+  destruct (sval_of_inv3 _ _ Es) as (y & o & s & f & off & ->).
+  destruct (args_view_dtz_all y o s f off sv Es) as (z & a & Hd & Ha & Hav).
+  apply (run_fmt_of_view 3 _ fmt a sv); auto.
+  unfold dec_value. cbn [Z.eqb Pos.eqb]. rewrite Hd. cbn [option_map]. rewrite Ha. reflexivity.
 Qed.
